@@ -178,7 +178,8 @@ def gen_program(fn, contract, db, inputs_bytes, rm=None):
         ct = fn['owner']
         b = inputs_bytes.get('self_obj', bytes(sizeof(ct, S)))
         lines.append('  static const unsigned char self_b[] = {%s};' % hexbytes(b))
-        lines.append('  %s self_real; std::memcpy(&self_real, self_b, sizeof self_real);' % cxx_type(ct, S))
+        lines.append('  alignas(64) unsigned char self_store[sizeof(%s)]; std::memcpy(self_store, self_b, sizeof self_store); %s& self_real = *reinterpret_cast<%s*>(self_store);' % (
+            cxx_type(ct, S), cxx_type(ct, S), cxx_type(ct, S)))
         lines.append('  %s self_pre_o; std::memcpy(&self_pre_o, self_b, sizeof self_pre_o); %s* self_pre = &self_pre_o;' % (ct, ct))
         callargs['this'] = 'self_real'
     for i, p in enumerate(fn['params']):
@@ -186,7 +187,8 @@ def gen_program(fn, contract, db, inputs_bytes, rm=None):
         var = 'a%d_obj' % i if p['ref'] else 'a%d' % i
         b = inputs_bytes.get(var, bytes(sizeof(ct, S)))
         lines.append('  static const unsigned char a%d_b[] = {%s};' % (i, hexbytes(b)))
-        lines.append('  %s a%d_real; std::memcpy(&a%d_real, a%d_b, sizeof a%d_real);' % (cxx_type(ct, S), i, i, i, i))
+        lines.append('  alignas(64) unsigned char a%d_store[sizeof(%s)]; std::memcpy(a%d_store, a%d_b, sizeof a%d_store); %s& a%d_real = *reinterpret_cast<%s*>(a%d_store);' % (
+            i, cxx_type(ct, S), i, i, i, cxx_type(ct, S), i, cxx_type(ct, S), i))
         if p['ref']:
             lines.append('  %s %s_pre_o; std::memcpy(&%s_pre_o, a%d_b, sizeof(%s)); %s* %s_pre = &%s_pre_o;' % (ct, p['name'], p['name'], i, ct, ct, p['name'], p['name']))
             lines.append('  %s %s_post_o; %s* %s = &%s_post_o;' % (ct, p['name'], ct, p['name'], p['name']))
